@@ -10,21 +10,25 @@ import itertools
 from lib.core import zlit
 
 MANIFEST = {
-    'text': 'Coq theorems over the faithful list model of gfpx.Polynomial, for every prime p and all normal-form '
-            'coefficient lists (unbounded degree): every operation returns a normal form; coefficient semantics of '
-            'add/sub/neg and the commutative-group laws; mul is the convolution reduced mod p, commutative, associative, '
-            'distributive, with unit, and _sq = _mul; divmod_spec a = q*b + r with len r < len b and _mod = snd divmod; '
-            'gcdext Bezout identity s*a + t*b = g through the Euclid loop with g monic; xor/bitmask addition of the '
-            'binary class refines list addition at p = 2. The models are tied to /repo on every run: all operators '
-            '(+,-,*,//,%,divmod,**,<<,>>,gcd,gcdext,invert,powmod,monic,deriv,comparisons,int/from int, reflected and '
-            'int-mixed forms) on all pairs of degree <= 3 over p in {2,3,5} and <= 2 over 7 and random pairs up to degree '
-            '12 over p in {2,3,11,101,2^31-1}, both classes, compared exactly with vm_compute of the model.',
+    'text': 'Coq theorems (29, all closed under the global context) over the faithful list model of gfpx.Polynomial, for every '
+            'prime p and all normal-form coefficient lists of unbounded degree: add/sub/neg/mul, the divmod remainder and the '
+            'gcdext outputs are normal forms; coefficient semantics of add/sub/neg; (GF(p)[X],+) is a commutative group (comm, '
+            'assoc, zero, inverse, sub = add neg); mul is the convolution reduced mod p (mul_coef + mulz_is_convolution), '
+            'commutative, associative, distributive over add, with unit and zero, and _sq = _mul; divmod_spec: divmod(a,b) = '
+            '(q,r) implies a = q*b + r and len r < len b, _mod is its second component, division by zero raises; gcdext: Bezout '
+            'identity s*a + t*b = g through the Euclid loop, g monic or zero, loop never exhausts its fuel; the binary class '
+            'refines the list class at p = 2 for addition/subtraction (xor). The models (incl. gcd, invert, powmod, shifts, '
+            'monic, deriv, int conversion, comparisons, evaluation, for both classes) are tied to /repo on every run: all '
+            'operators incl. reflected and int-mixed forms on all pairs of degree <= 3 over p in {2,3}, <= 2 over {5,7} '
+            '(thorough: <= 3 over 5), binary class to degree 6, and random pairs up to degree 12 over p in {2,3,11,101,2^31-1}, '
+            'compared exactly with vm_compute of the model; an independent schoolbook oracle checks every implementation result.',
     'note': 'Trusted: Coq kernel + vm_compute; hand-written models Gfpx.v/Gf2x.v (accumulate loops of _mul/_sq modelled as '
             'row-by-row structural recursion; the `if a_i:` zero-skip is unobservable) tied by exact comparison; large '
             'exhaustive tables compared through per-row 61-bit rolling hashes (collision ~2^-61) rather than printed '
-            'values. gmpy2.invert modulo p is modelled by Zp.inv_raw (unique inverse for prime p). NOT proved in Coq '
+            'values; in the quick tier the model is evaluated on a deterministic sample of table rows for p in {5,7} and the '
+            'degree<=6 binary table (all rows in the thorough tier) while implementation+oracle cover every pair. gmpy2.invert modulo p is modelled by Zp.inv_raw (unique inverse for prime p). NOT proved in Coq '
             '(covered only by the implementation-level oracle and the correspondence): gcd is the greatest common divisor '
-            '(divides both / universal), invert_spec, powmod = repeated multiplication, to_int/from_int order isomorphism, '
+            '(divides both / universal; only Bezout + monic is proved), quotient q has no trailing zero (only range proved), wf of lshift/rshift/monic/deriv/from_int, invert_spec, powmod = repeated multiplication, to_int/from_int order isomorphism, '
             'deriv/reverse/truncate semantics, and the refinement binary-class mul/divmod = list mul/divmod at p = 2 '
             '(only add/sub refinement is proved). _reverse/_truncate/_from_terms/_to_terms are not modelled.',
     'technique': 'Coq proof over executable model (integer-polynomial evaluation semantics + canonical forms) + '
@@ -231,7 +235,7 @@ Definition ez (r : res Z) := match r with Ok x => [[x]] | ZeroDiv => [[-1]] | Va
 Definition ez2 (r : res (Z * Z)) := match r with Ok (x,y) => [[x];[y]] | ZeroDiv => [[-1];[-1]] | ValueErr => [[-2];[-2]] | NoFuel => [[-3];[-3]] end.
 Definition ez3 (r : res (Z * Z * Z)) := match r with Ok (x,y,z) => [[x];[y];[z]] | ZeroDiv => [[-1];[-1];[-1]] | ValueErr => [[-2];[-2];[-2]] | NoFuel => [[-3];[-3];[-3]] end.
 Definition bz (b : bool) : Z := if b then 1 else 0.
-Definition leqb (a b : list Z) : bool := (length a =? length b)%nat && forallb (fun xy => fst xy =? snd xy) (combine a b).
+Definition leqb (a b : list Z) : bool := (List.length a =? List.length b)%nat && forallb (fun xy => fst xy =? snd xy) (combine a b).
 Definition core (p ia ib : Z) : list (list Z) :=
   let a := from_int p ia in let b := from_int p ib in
   [add p a b; sub p a b; mul p a b] ++ er2 (divmod p a b) ++ er (pmod p a b) ++ er (floordiv p a b)
@@ -247,7 +251,7 @@ Definition unary (p ia : Z) (xs : list Z) : list (list Z) :=
   ++ [sq p a]
   ++ flat_map (fun n => er (powmod p a n None)) [0;1;2;3;4;-1]
   ++ [from_int p (- ia)]
-  ++ [[snd (monic_pinv p a); to_int p a; Z.of_nat (length a); bz (negb (leqb a []))] ++ map (fun x => call p a x) xs].
+  ++ [[snd (monic_pinv p a); to_int p a; Z.of_nat (List.length a); bz (negb (leqb a []))] ++ map (fun x => call p a x) xs].
 Definition pw (p ia ib : Z) : list (list Z) :=
   let a := from_int p ia in let b := from_int p ib in
   flat_map (fun n => er (powmod p a n (Some b))) [-2;-1;0;1;2;3;5;p].
@@ -545,6 +549,17 @@ def error_stream(ctx, gfpx, I):
 def run(ctx):
     from mpyc import gfpx
     ok = ctx.build(['MPyC.Gfpx', 'MPyC.Gf2x']) and ctx.check_props()
+    # at most 5 replay files per failing class (a broken operator fails on most of a table)
+    _viol, _seen = ctx.violation, {}
+
+    def limited(sig, detail, found_input=True):
+        import re as _re
+        k = _re.sub(r'\d+', 'N', sig)
+        _seen[k] = _seen.get(k, 0) + 1
+        if _seen[k] <= 5:
+            return _viol(sig, detail, found_input)
+        return 'suppressed'
+    ctx.violation = limited
     rng = ctx.rng
     ctx.rule = ('case = (class, p, int(a), int(b)); exhaustive pairs: degree<=3 over p in {2,3,5}, <=2 over 7 (both classes '
                 'for p=2, binary also to degree<=6); random pairs to degree 12 over p in {2,3,11,101,2^31-1}; non-trivial when '
@@ -615,7 +630,7 @@ def run(ctx):
     # ---- stream 2: random pairs to degree 12
     bigp = [2, 3, 11, 101, 2 ** 31 - 1]
     for p in bigp:
-        for rep in range(ctx.n(40, 400)):
+        for rep in range(ctx.n(24, 400)):
             da, db = rng.randint(0, 12), rng.randint(0, 12)
             if rep % 5 == 0:
                 db = min(db, 3)
@@ -665,6 +680,10 @@ def run(ctx):
         I = impl(p, gen)
         n = p ** (deg + 1)
         objs = [I.P(i) for i in range(n)]
+        # rows sent to the Coq model: all of them (thorough) / a deterministic sample incl. boundary rows (quick);
+        # the implementation + oracle always run on the whole table
+        budget = n if thorough else {2: 40, 3: 81, 5: 30, 7: 14}[p]
+        coq_rows = set(range(n)) if budget >= n else set([0, 1, p, n - 1] + rng.sample(range(n), budget - 4))
         for ia in range(n):
             h = 1
             A = objs[ia]
@@ -675,6 +694,8 @@ def run(ctx):
                 oracle_pair(ctx, I, ia, ib, c, cv)
                 h = hll(h, [I.enc(x) for x in c] + [cv])
             npairs += n
+            if ia not in coq_rows:
+                continue
             hex_.append(('rowhash2 %d %d%%nat' % (ia, n)) if I.binary else ('rowhash %d %d %d%%nat' % (p, ia, n)))
             hmeta.append(({'class': I.name, 'p': p, 'a': ia, 'b': 'all %d' % n}, h))
             ctx.case({'table': I.name, 'deg': deg, 'a': ia}, nontrivial=ia > 0, kind='exhaustive-table-row %s deg<=%d' % (I.name, deg))
@@ -695,7 +716,11 @@ def run(ctx):
                 else:
                     diff = str(r)[:400]
                 ctx.broken.append({'kind': 'correspondence', 'case': key, 'item,model,impl': diff})
-        hres = ctx.coq_eval(['MPyC.Gfpx', 'MPyC.Gf2x'], hex_, preamble=PRE, chunk=max(8, len(hex_) // 12 + 1), tag='C23h')
+        nch = 12
+        order = sorted(range(len(hex_)), key=lambda i: (i % nch, i))        # spread the expensive p=7 rows over all chunks
+        hex_ = [hex_[i] for i in order]
+        hmeta = [hmeta[i] for i in order]
+        hres = ctx.coq_eval(['MPyC.Gfpx', 'MPyC.Gf2x'], hex_, preamble=PRE, chunk=max(8, (len(hex_) + nch - 1) // nch), tag='C23h')
         for r, (key, h) in zip(hres, hmeta):
             if r != h:
                 mism += 1
